@@ -22,6 +22,7 @@ import (
 	"fmt"
 	"time"
 
+	apierrors "k8s.io/apimachinery/pkg/api/errors"
 	metav1 "k8s.io/apimachinery/pkg/apis/meta/v1"
 	glog "k8s.io/klog"
 
@@ -51,7 +52,12 @@ func (ci *crdIpam) createFloatingIP(allocated *FloatingIP) error {
 
 func (ci *crdIpam) deleteFloatingIP(name string) error {
 	glog.V(4).Infof("delete floatingIP name %s", name)
-	return ci.client.GalaxyV1alpha1().FloatingIPs().Delete(context.TODO(), name, metav1.DeleteOptions{})
+	err := ci.client.GalaxyV1alpha1().FloatingIPs().Delete(context.TODO(), name, metav1.DeleteOptions{})
+	if apierrors.IsNotFound(err) {
+		// already gone (an earlier delete whose reply was lost, or removed by hand): the object is in the wanted state
+		return nil
+	}
+	return err
 }
 
 func (ci *crdIpam) updateFloatingIP(toUpdate *FloatingIP) error {
